@@ -164,6 +164,7 @@ def gen_batch(rng, nstructs=14, can=False, granular_share=0.0, big=False):
     enames = [e[0] for e in d.enums]
     extra = []
     taken = set()
+    d.foreign = {}  # struct name -> (id, bus tag) of a look-alike binding of another protocol
     for s in range(nstructs):
         prev = [x[0] for x in d.structs]
         gran = rng.random() < granular_share
@@ -218,7 +219,16 @@ def gen_batch(rng, nstructs=14, can=False, granular_share=0.0, big=False):
             # ids from a small pool half of the time: several bindings share an id on different buses (and now and then
             # on the same bus, where the first one wins in both wrappers and in the model)
             cid = rng.choice([0, 0, 7, 100, 1000, 2047]) if rng.random() < 0.5 else rng.randint(0, 2047)
-            extra.append(f'impl can for {name} {{\n    id: {cid},\n    bus: "{bus}",\n}}')
+            can_b = f'impl can for {name} {{\n    id: {cid},\n    bus: "{bus}",\n}}'
+            if rng.random() < 0.3:
+                # a binding of another protocol that carries an id and a bus too, before or after the CAN one: it is no CAN
+                # binding; a frame with its (id, bus) is unknown unless a CAN binding has the same pair
+                fbus, fid = rng.choice(["l0", "lin", "b", "b1", bus]), rng.choice([cid, cid + 1, 3, 0])
+                other = f'impl {rng.choice(["lin", "uart", "CAN", "canfd"])} for {name} {{\n    id: {fid},\n    bus: "{fbus}",\n}}'
+                extra += [other, can_b] if rng.random() < 0.5 else [can_b, other]
+                d.foreign[name] = (fid, [ord(c) for c in fbus] + [0] * (4 - len(fbus)))
+            else:
+                extra.append(can_b)
     if not can:
         # an enum that is reachable only through two container levels, and an Optional in front of plain fields
         d.enums.append(("N0", [("NA", 0), ("NB", 5), ("NC", 255)]))
@@ -782,6 +792,9 @@ def exercise_can(rep, rng, d, g, build, jobs, model):
         # decode the frame back, and frames with a non-matching (id, bus)
         frames = [lf, dict(lf, sid=(lf["sid"] + 1) % 2048), dict(lf, bus=[122, 122, 0, 0]),
                   dict(lf, bus=(lf["bus"][:1] + [0, 0, 0]) if lf["bus"][1] else (lf["bus"][:1] + [113, 0, 0]))]
+        if n in getattr(d, "foreign", {}):
+            frames.append(dict(lf, sid=d.foreign[n][0], bus=d.foreign[n][1]))
+            rep.hist("look_alike_binding_frames", "sent")
         for f in frames:
             dec.append(f"CD {which} {hexs(f['bus'])} {f['sid']} {f['dlc']} {hexs(f['data'])}")
             dmeta.append((which, n, mv))
